@@ -159,7 +159,7 @@ def run(ctx):
                 "{0,1,3} x {OLS, elastic net, multi-task} x penalty {0,1/10,1/2,1,2} x l1-ratio {0,1/2,1} x intercept on/off, "
                 "target unit 2^ue, ue in {0,-10,-14,10} (with a loose fit at tolerance 10^-1..10^-4 and its repetition in unit 1), "
                 "OLS with intercept: per-column offsets (f32: 2000, 2^11, 2^13, 2^16; f64: 10^5, 10^7, 2^30) and a nearly collinear "
-                "second column (30*x1 + x2), half of the OLS cases in f32; "
+                "second column (20*x1 + x2), half of the OLS cases in f32; "
                 "enumerated by TLC (Gen_LinReg) and thinned by a fixed hash [+ seeded random n<=20, p<=3, t<=3 in the thorough "
                 "tier]; non-trivial = targets not all zero and (some column mean non-zero or p > 1); distinct by "
                 "(kind, X, Y, penalty, ratio, intercept, float type)")
